@@ -114,6 +114,29 @@ fn c19_anon(v: &(Vec<EcuTrace>, Vec<u16>), rep: &mut Rep) -> Result<(), String> 
 pub fn c02_sub(tier: Tier) -> Box<dyn DynSub> {
     sub("binary_export_twice", tier.pick(300, 8_000), stream(12, true, 200), c02_export).rates(&[("garbage_in_input", 0.3)]).shrink_iters(100).slow().boxed()
 }
+/// files larger than convert's read buffer (512 KiB) made of near-maximum messages: a message that straddles a refill
+/// must be seen completely (the callers' low-water mark), nothing may be cut off silently
+pub fn c02_sub_large(tier: Tier) -> Box<dyn DynSub> {
+    let big = (any::<bool>(), prop::collection::vec((crate::model::wire::wmsg(true), prop_oneof![3 => 40_000usize..65_000, 2 => 65_000usize..65_536, 1 => 0usize..300]), 10..30), prop::collection::vec(crate::model::wire::garbage(200), 0..3)).prop_map(|(serial, msgs, garbage)| {
+        let mut elems = vec![];
+        for (i, (mut m, len)) in msgs.into_iter().enumerate() {
+            m.payload.len = std::cmp::min(len, WMsg::max_payload(m.htyp));
+            if let Some(g) = garbage.get(i) {
+                elems.push(Elem::G(g.clone()));
+            }
+            elems.push(Elem::M(m));
+        }
+        Stream { serial, elems }
+    });
+    sub("binary_export_large", tier.pick(48, 1_000), big, |st: &Stream, rep: &mut Rep| {
+        let r = c02_export(st, rep);
+        rep.label("file_larger_than_read_buffer");
+        r
+    })
+    .shrink_iters(40)
+    .slow()
+    .boxed()
+}
 pub fn c07_sub(tier: Tier) -> Box<dyn DynSub> {
     sub("binary_listing", tier.pick(300, 8_000), prop::collection::vec(ev(3), 1..120), c07_listing).rates(&[("ge3_lifecycles", 0.4)]).shrink_iters(100).slow().boxed()
 }
